@@ -80,6 +80,9 @@ EXT_SIGNATURES = {
     "rasterio.features.rasterize": ("shapes", "out_shape", "fill"),
 }
 
+with open(os.path.join(os.path.dirname(os.path.abspath(__file__)), "pinned_assigns.json")) as _f:
+    PINNED_ASSIGNS = {k: frozenset(v) for k, v in json.load(_f).items()}
+
 CMP_FLIP = {"gt": "lt", "ge": "le"}
 CMP_NEG = {"lt": "ge", "le": "gt", "eq": "ne", "ne": "eq", "in": "notin", "notin": "in", "is": "isnot", "isnot": "is",
            "gt": "le", "ge": "lt"}
@@ -968,10 +971,36 @@ class Evaluator:
             return self.env[n.id]
         s = self.index.resolve(self.module, n.id)
         if s is not None:
-            return sym_term(s)
+            return self._new_constant(s) or sym_term(s)
         if n.id in BUILTINS or n.id in ("True", "False", "None"):
             return ("builtin", n.id)
         return ("unbound", n.id)
+
+    def _new_constant(self, s):
+        """A module-level name bound (once) to a display / constant / simple call that the reference tree does not have is
+        a named constant introduced by a later change: its value, so that hoisting a literal into a constant is invisible."""
+        if s.kind != "assign" or s.module is None or ":" not in s.qual:
+            return None
+        modname, name = s.qual.split(":")
+        if name in PINNED_ASSIGNS.get(modname, ()) or len(s.module.defs.get(name, [])) != 1:
+            return None
+        d = s.module.defs[name][0]
+        node = d.value if isinstance(d, (ast.Assign, ast.AnnAssign)) else None
+        if node is None or isinstance(node, (ast.Dict, ast.DictComp, ast.ListComp, ast.SetComp, ast.GeneratorExp, ast.Lambda)):
+            return None  # tables are handled by _table_lookup; mutable containers keep their identity (rule G.1)
+        if isinstance(node, (ast.List, ast.Set)) and not node.elts:
+            return None
+        if len(self.inline_stack) >= 4:
+            return None
+        try:
+            sub = Evaluator(self.index, s.module, node, s.qual, None)
+            sub.inline_stack = self.inline_stack + (s.qual,)
+            v = sub.ev(node, TRUE)
+        except (AnalysisError, RecursionError):
+            return None
+        if any(x[0] in ("unbound", "unknown") for x in walk(v)):
+            return None
+        return v
 
     def e_Attribute(self, n, live):
         base = self.ev(n.value, live)
